@@ -46,6 +46,16 @@ def fit_and_transform(case, max_columns, base, hashed):
     Xn = [S(s) for s in case["Xnew"]]
     m = LZCompressionVectorizer(max_dict_size=case["cap"], max_columns=max_columns, base_dictionary=base,
                                 random_state=case["seed"])
+    if case.get("prehistory"):
+        # the estimator object has a past: an earlier fit on other strings and earlier transforms, so that anything the
+        # object remembers across fits (caches, column numbering) shows up in the measured calls below
+        try:
+            past = [s[::-1] + "q" for s in (Xn + X)] + ["qq"]
+            m.fit_transform(past)
+            m.transform(X + Xn)
+            m.transform(past)
+        except Exception:  # noqa
+            pass
     out = {"fit_transform": guarded(lambda: mat(m.fit_transform(X)))}
     if "ok" not in out["fit_transform"]:
         return out
